@@ -49,6 +49,25 @@ mod h {
             }
         };
     }
+    /// two-field record: by-reference field first, by-value field second
+    #[kani::proof]
+    #[kani::unwind(34)]
+    fn c02_k3_eq_record2_str_u32() {
+        let lay: [(usize, usize); 3] = [(16, 8), (4, 4), (1, 1)];
+        let (mut pool, r, f) = pool_with(lay);
+        let rec = pool.push(Ty::Record(vec![(Identifier(100), f[0]), (Identifier(101), f[1])]));
+        let mut ti = TypeInfo { ty_pool: pool };
+        let mut ls = LabelStore { n: 0 };
+        let mut ctx = LowerCtx { runtime: &r, type_info: &mut ti, label_store: &mut ls };
+        let mut l = Lowerer { ctx: &mut ctx, blocks: Vec::new(), tmp: 0, last_offsets: [(0, 0); 2], n_offsets: 0, cmps: [None; 4], n_cmps: 0, other_arm: false, returned: 0 };
+        l.generate_eq_body(Identifier(7), ScopeRef(1), rec);
+        assert!(l.n_cmps == 2 && !l.other_arm, "OBL:C02.eq.record_equality_compares_every_field_once");
+        let want = [Cmp { left_offset: 0, right_offset: 0, ty: f[0] }, Cmp { left_offset: 16, right_offset: 16, ty: f[1] }];
+        assert!(l.cmps[0] == Some(want[0]) && l.cmps[1] == Some(want[1]), "OBL:C02.eq.each_field_compared_at_its_c_layout_offset_with_its_type");
+        kani::cover!(true, "COV:C02.eq.case_reached");
+        core::mem::forget(l);
+    }
+
     // by-reference field (16 bytes, align 8) before by-value fields of other sizes, and the reverse
     eq_record!(c02_k3_eq_record_str_u32_u8, [(16, 8), (4, 4), (1, 1)]);
     eq_record!(c02_k3_eq_record_u8_str_u32, [(1, 1), (16, 8), (4, 4)]);
